@@ -253,7 +253,17 @@ func (w *World) kbUpdate(o *Obs) {
 		} else {
 			kb.setPassword(a, "")
 		}
-		w.revokeAll("rm", a)
+		if o.FaultFired != "" || o.OpErr != "" || o.errorOutcome() {
+			// the change was reported as failed: whether its side effects
+			// (token revocation) happened is open
+			for _, s := range kb.list("rm", a) {
+				if s.Status == "valid" {
+					s.Status = "maybe"
+				}
+			}
+		} else {
+			w.revokeAll("rm", a)
+		}
 	}
 	if st.Kind == "op_delete" && o.Acct >= 0 && o.Acct < len(w.Accts) {
 		for _, k := range []string{"rm", "otp", "recovery", "confirm", "recover"} {
